@@ -55,6 +55,7 @@ import (
 	"github.com/foxcpp/maddy/internal/verifshim/verr"
 	"github.com/foxcpp/maddy/internal/verifshim/vh"
 	"golang.org/x/net/idna"
+	"golang.org/x/text/unicode/norm"
 )
 
 type c18Case struct {
@@ -549,9 +550,9 @@ func c18MsgOf(n *verr.Node) (string, bool) {
 }
 
 type c18Expect struct {
-	tries  [][]int // recipients of each attempt
-	failed [][]int // recipients failing terminally in each attempt
-	lastE  []map[int]*verr.Node
+	tries   [][]int // recipients of each attempt
+	failed  [][]int // recipients failing terminally in each attempt
+	lastE   []map[int]*verr.Node
 	nostart []bool // the target refused the transaction at Start: no recipient is offered
 }
 
@@ -648,6 +649,16 @@ func c18Renders(form string, utf8 bool) bool {
 	}
 	_, err := idna.ToUnicode(form[i+1:])
 	return err == nil
+}
+
+// c18DomainForm is the form of a host name the report type requires (library call, not maddy's dns package).
+func c18DomainForm(d string, utf8 bool) string {
+	if utf8 {
+		u, _ := idna.ToUnicode(d)
+		return norm.NFC.String(u)
+	}
+	a, _ := idna.ToASCII(d)
+	return a
 }
 
 func c18DomainOK(d string, utf8 bool) bool {
@@ -983,7 +994,16 @@ func c18RunCase(out *vh.Out, op string) {
 		viol(sig, fmt.Sprintf("attempts %s, expected %s (bounce fails at %c)", strings.Join(gotTries, ";"), strings.Join(wantTries, ";"), c.failAt))
 	}
 	// sanity of the inputs: everything the report has to show can be shown
-	sane := c18DomainOK(c.host, c.utf8) && c.host != "" && c18DomainOK(c.rcvd, c.utf8) && (c.from == 0 || c18Renders(c.name(c.from), c.utf8))
+	// (NOT the client's HELO name: Received-From-MTA is optional, a name that cannot be converted is
+	// left out of the report and is no reason to lose it)
+	sane := c18DomainOK(c.host, c.utf8) && c.host != "" && (c.from == 0 || c18Renders(c.name(c.from), c.utf8))
+	if !c18DomainOK(c.rcvd, c.utf8) {
+		out.Stat("q.client-name.inconvertible")
+	} else if c.rcvd != "" {
+		out.Stat("q.client-name.convertible")
+	} else {
+		out.Stat("q.client-name.none")
+	}
 	hoByAttempt := map[int][]*c18Handover{}
 	for _, ho := range hos {
 		hoByAttempt[ho.attempt] = append(hoByAttempt[ho.attempt], ho)
@@ -1114,7 +1134,41 @@ func c18RunCase(out *vh.Out, op string) {
 		// not be credited with the group of another member of the same alias
 		order := append([]int{}, failed...)
 		sort.SliceStable(order, func(i, j int) bool { return c.levels[order[i]] < 2 && c.levels[order[j]] >= 2 })
-		for _, r := range order {
+		// (twice rewritten recipients in two rounds: first those with a group showing the sender's
+		// address AND carrying their own status, then the rest - the intermediate address of a sibling
+		// can be a mere respelling of the address the sender used, e.g. its U-label form, and must
+		// not be taken by another twice rewritten recipient with a different outcome)
+		diagMatches := func(g vdsn.Group, n *verr.Node) bool {
+			dg := g["Diagnostic-Code"]
+			if len(dg) != 1 {
+				return false
+			}
+			m, ann := c18MsgOf(n)
+			if n.Kind == "R" {
+				m, ann = n.Msg, true
+			}
+			if !ann {
+				m = "Internal server error"
+			}
+			if c.utf8 {
+				m = vdsn.FlatText(m)
+			} else {
+				m = vdsn.ASCIIText(m)
+			}
+			if !strings.HasSuffix(vdsn.CanonWs(dg[0]), vdsn.CanonWs(" "+m)) && vdsn.CanonWs(m) != "" {
+				return false
+			}
+			if code, ok := verr.CodeField(n); ok || n.Kind == "R" {
+				if n.Kind == "R" {
+					code = n.Code
+				}
+				if !strings.Contains(dg[0], fmt.Sprintf("; %d ", code)) {
+					return false
+				}
+			}
+			return true
+		}
+		credit := func(r int, exactWithStatusOnly bool) bool {
 			want := c.name(c.root[r])
 			// the best candidate: a group showing exactly the sender's bytes (the domain in the form
 			// the report type requires) before one showing the same mailbox with another spelling of
@@ -1139,9 +1193,18 @@ func c18RunCase(out *vh.Out, op string) {
 				if len(g["Status"]) > 0 && strings.TrimSpace(g["Status"][0]) == statusOf(exp.lastE[k][r]) {
 					score++
 				}
+				// (two groups showing the same address with the same status: the one carrying this
+				// recipient's diagnostic is its own)
+				score *= 2
+				if diagMatches(g, exp.lastE[k][r]) {
+					score++
+				}
 				if score > best {
 					found, best = gi, score
 				}
+			}
+			if exactWithStatusOnly && best < 6 {
+				return false
 			}
 			if found < 0 {
 				var got []string
@@ -1153,13 +1216,13 @@ func c18RunCase(out *vh.Out, op string) {
 					sig = "intermediate-address-reported"
 				}
 				viol(sig, fmt.Sprintf("recipient %q (sender used %q, %d rewriting levels) not among %q", c.name(r), want, c.levels[r], got))
-				continue
+				return true
 			}
 			used[found] = true
 			g := p.Rcpts[found]
 			n := exp.lastE[k][r]
 			if !wf {
-				continue
+				return true
 			}
 			st := ""
 			if len(g["Status"]) > 0 {
@@ -1208,6 +1271,20 @@ func c18RunCase(out *vh.Out, op string) {
 			} else {
 				viol("diagnostic-missing", fmt.Sprintf("recipient %q", c.name(r)))
 			}
+			return true
+		}
+		var secondRound []int
+		for _, r := range order {
+			if c.levels[r] >= 2 {
+				if !credit(r, true) {
+					secondRound = append(secondRound, r)
+				}
+			} else {
+				credit(r, false)
+			}
+		}
+		for _, r := range secondRound {
+			credit(r, false)
 		}
 		// the local part is opaque: every address the report shows in Final-Recipient is one of the
 		// strings the case knows, local part byte for byte (the domain may be in the A-/U-label form
@@ -1227,6 +1304,23 @@ func c18RunCase(out *vh.Out, op string) {
 			if !known {
 				viol("rewritten-address-disclosed", fmt.Sprintf("Final-Recipient %q is none of the addresses of this message (local part altered?), an address the sender never used", a))
 				break
+			}
+		}
+		// Received-From-MTA, when shown, is the name the client gave (in the form the report type
+		// requires) - never anything for a sender that is not to be traced, never a name that cannot
+		// be converted
+		if p.Mta != nil {
+			if v := p.Mta["Received-From-Mta"]; len(v) > 0 { // (the parser's keys are in canonical MIME form)
+				_, shown := vdsn.SplitTyped(v[0])
+				okName := c.rcvd != "" && c18DomainOK(c.rcvd, c.utf8) && (shown == c.rcvd || shown == c18DomainForm(c.rcvd, c.utf8))
+				if len(v) != 1 || !okName {
+					viol("received-from-not-client-name", fmt.Sprintf("Received-From-MTA %q, the client called itself %q", v, c.rcvd))
+				}
+				out.Stat("q.report.received-from.shown")
+			} else if !c18DomainOK(c.rcvd, c.utf8) {
+				out.Stat("q.report.received-from.left-out-inconvertible")
+			} else {
+				out.Stat("q.report.received-from.absent")
 			}
 		}
 		// the sender is shown (X-Maddy-Sender) as the mailbox the report goes to
